@@ -97,3 +97,19 @@ reg('C13',
     level_text='Exhaustive over all strings up to the stated length for every recogniser: any disagreement in return value, type, extent, length or cursor with the reference, or any read outside the input, is reported.',
     level_note='private (LOCAL) lexer functions are called by name, as the repository tests do',
     design_ref='DESIGN.md section 3 / C13')
+
+reg('C19',
+    title='numeric and channel lists decode entry by entry exactly as written',
+    src='c19_expr.c',
+    configs={'quick': ['def'], 'thorough': ['def']},
+    deadline={'quick': 100, 'thorough': 1500},
+    level=MC,
+    technique='bounded-exhaustive enumeration of all expression bodies up to length L x index x capacity on the real expression API (ASan), compared with a reference list grammar',
+    rule={'quick': 'every expression body of length <= 6 over {1 2 - . : , ! @ blank A} between parentheses, queried at every index 0..9 (0..4 for length 6) through the three numeric-list entry functions and through the channel-list function with every capacity 0..4 (exact-size heap value arrays), plus generated lists of 1..8 entries x 1..5 dimensions with every range placement; non-trivial = body that is a well-formed numeric or channel list',
+          'thorough': 'as quick with bodies of length <= 7'},
+    assumptions=['lazy validation is accepted: entry i may be reported OK when the body starts with i+1 well-formed comma-separated entries, whatever follows',
+                 'for a malformed numeric list both NO_MORE and ERROR are accepted where OK is not allowed; for a malformed channel list only ERROR with -170',
+                 'integer value of an entry = integer part of its decimal token; double value = strtod of the token text'],
+    level_text='Exhaustive over all bodies up to the stated length, every index and every capacity: any unsound OK, wrong value/range/dimension, NO_MORE for an existing entry, missing -170 or store beyond the announced capacity is reported.',
+    level_note='libc strtod is trusted for the expected double values (C04 checks the conversions independently)',
+    design_ref='DESIGN.md section 3 / C19')
